@@ -31,6 +31,8 @@ def gen_instances(rnd, count):
             obs[rnd.randrange(n)] = True
         inst = dict(G=[[rnd.randint(-2, 2), rnd.randint(-2, 2)] for _ in range(n)], s2=rnd.choice([1, 2]), y=[rnd.randint(-2, 2) for _ in range(n)],
                     obs=obs, t=[rnd.randint(-2, 2), rnd.randint(-2, 2)])
+        if len(out) % 4 == 3:       # an observed target that equals the fill value
+            inst["y"][[j for j in range(n) if obs[j]][0]] = -999
         k = repr(inst)
         if k not in seen:
             seen.add(k)
@@ -83,13 +85,18 @@ def run_case(torch, gpytorch, c):
     yfull = torch.sin(3 * x.squeeze(-1)).unsqueeze(-1).expand(*bshape, n, *((2,) if tshape else (1,))).clone()
     yfull = (yfull if tshape else yfull.squeeze(-1)) + 0.1 * torch.randn(*bshape, n, *tshape, generator=g, dtype=torch.float64)
     miss = torch.tensor(c["missing"], dtype=torch.bool).reshape(*bshape, n, *tshape)
+    if c.get("sentinel"):
+        # an OBSERVED target that equals the value the 'fill' policy writes into missing entries: still an observation
+        flat_obs = (~miss).reshape(-1).nonzero().squeeze(-1)
+        yfull.view(-1)[flat_obs[c["seed"] % len(flat_obs)]] = settings.observation_nan_policy._fill_value
     y = yfull.clone()
     y[miss] = float("nan")
-    desc = "%s n=%d missing=%s policies=%s" % (kind, n, "".join("x" if m else "." for m in c["missing"]), ">".join(pols))
+    desc = "%s n=%d missing=%s policies=%s%s" % (kind, n, "".join("x" if m else "." for m in c["missing"]), ">".join(pols),
+                                                 " (one observed target equals the fill value)" if c.get("sentinel") else "")
     results = []
 
     def res(what, ok, detail, idx=""):
-        results.append(dict(key=[kind, n, c["missing"], pols, what, idx], ok=ok, nontrivial=any(c["missing"]), sig="C16/%s/%s/%s/%s" % (kind, what, c.get("lastpol", ""), "some-missing" if any(c["missing"]) else "none-missing"),
+        results.append(dict(key=[kind, n, c["missing"], pols, what, idx, bool(c.get("sentinel"))], ok=ok, nontrivial=any(c["missing"]), sig="C16/%s/%s/%s/%s" % (kind, what, c.get("lastpol", ""), "some-missing" if any(c["missing"]) else "none-missing"),
                             detail=desc + ": " + detail, case=c, sample=dict(case=desc) if what == "mean" else None))
 
     model, lik = build(torch, gpytorch, kind, x, y)
@@ -299,6 +306,8 @@ def run(ck):
             pat[0] = pat[nn] = False
         for seq in seqs[:: (1 if thorough else 3)]:
             cases.append(dict(kind="batch", n=nn, missing=pat, policies=list(seq), seed=ck.seed * 100 + 80 + k))
+    # value class "an observed target equals the fill sentinel" (NanPolicy.tla instances with y = -999 at an observed index)
+    cases += [dict(cc, sentinel=True) for i, cc in enumerate(cases) if (thorough and i % 2 == 0) or i % 5 == 0]
     items = [dict(cases=cases[i:i + 8]) for i in range(0, len(cases), 8)]
     results = core.pmap(_worker, items, chunksize=1)
     ck.absorb(results)
